@@ -87,6 +87,7 @@ def plan(tier, seed):
     n = len(trees(2))
     sh = [['d2', lo, hi] for lo, hi in chunks(n, 256)]
     sh.append(['nonkripke'])
+    sh.append(['lazy'])
     blocks = [seed % NB3] if tier == 'quick' else [(seed + j) % NB3 for j in range(16)]
     for b in blocks:
         sh.append(['d3', b])
@@ -310,8 +311,57 @@ def run_shard(shard, tier, seed, acc):
                 return
             check_tree(t, acc, Kl, do_mc=False)
         return
+    if kind == 'lazy':
+        # non-members whose offending part sits where constant folding / short-circuiting / lazy
+        # validation could skip it: every checker must still raise TypeError
+        Pp = ('ap', 'p')
+        Tt, Ff = ('t',), ('f',)
+        offenders = {'LTL': [('E', ('X', Pp)), ('A', ('G', Pp)), ('E', Pp)],
+                     'CTL': [('X', Pp), ('F', ('G', Pp)), ('U', Pp, ('X', Pp))]}
+        ctxs = [lambda q: ('imp', Ff, q), lambda q: ('imp', q, Tt), lambda q: ('or', Tt, q), lambda q: ('or', q, Tt),
+                lambda q: ('and', Ff, q), lambda q: ('and', q, Ff), lambda q: ('and', Pp, Ff, q),
+                lambda q: ('or', Pp, q, Tt), lambda q: ('U', q, Tt), lambda q: ('U', Tt, q), lambda q: ('R', Ff, q),
+                lambda q: ('G', ('imp', Ff, q)), lambda q: ('not', ('and', Ff, q)), lambda q: ('F', ('or', Tt, q)),
+                lambda q: ('X', ('imp', ('not', Tt), q))]
+        for q in offenders['LTL']:
+            for cx in ctxs:
+                t = ('A', cx(q))
+                for Mname in ('CTLS',):
+                    obj = lib.build(t, lib.CTLS)
+                    for F in (None, [set([0])]):
+                        kw = {} if F is None else {'F': F}
+                        for arg, mode in ((obj, 'object'), (str(obj), 'text')):
+                            if mode == 'text':
+                                kw2 = dict(kw, parser=lib.CTLS.Parser()) if False else dict(kw)
+                                res = call(lib.LTL.modelcheck, Kl, arg, **kw2)
+                                okexc = ('TypeError', 'UnexpectedToken', 'UnexpectedCharacters')
+                            else:
+                                res = call(lib.LTL.modelcheck, Kl, arg, **kw)
+                                okexc = ('TypeError',)
+                            acc.ev(1, 1)
+                            if not (res[0] == 'exc' and res[1] in okexc):
+                                acc.violation('modelcheck-accepts-non-member-lazily',
+                                              {'tree': spaces.to_jsonable(t), 'tree_str': spaces.fstr(t),
+                                               'checker': 'LTL', 'mode': mode, 'F': repr(F)}, 'TypeError', res[:2])
+        for q in offenders['CTL']:
+            for cx in ctxs[:11]:
+                t = cx(q)
+                if members.ctl_state(t) or not members.ctls(t):
+                    continue
+                obj = lib.build(t, lib.CTLS)
+                for F in (None, [set([0])]):
+                    kw = {} if F is None else {'F': F}
+                    res = call(lib.CTL.modelcheck, Kl, obj, **kw)
+                    acc.ev(1, 1)
+                    if not (res[0] == 'exc' and res[1] == 'TypeError'):
+                        acc.violation('modelcheck-accepts-non-member-lazily',
+                                      {'tree': spaces.to_jsonable(t), 'tree_str': spaces.fstr(t), 'checker': 'CTL',
+                                       'mode': 'object', 'F': repr(F)}, 'TypeError', res[:2])
+        return
     if kind == 'nonkripke':
-        forms = [('ap', 'p'), ('A', ('G', ('ap', 'p'))), ('E', ('X', ('ap', 'p'))), ('not', ('ap', 'p'))]
+        forms = [('ap', 'p'), ('A', ('G', ('ap', 'p'))), ('E', ('X', ('ap', 'p'))), ('not', ('ap', 'p')),
+                 ('f',), ('t',), ('and', ('f',), ('ap', 'p')), ('E', ('U', ('f',), ('f',))), ('A', ('f',)),
+                 ('A', ('G', ('t',))), ('or', ('f',), ('f',), ('f',))]
         bads = [DiGraph(V=[0], E=[(0, 0)]), None, {0: [0]}, 'K', 7, [(0, 0)]]
         for Cname in ('CTL', 'LTL', 'CTLS'):
             C = lib.LANGS[Cname]
@@ -343,6 +393,8 @@ def replay(art):
     acc = Acc()
     if 'bad_index' in c:
         run_shard(['nonkripke'], 'quick', 0, acc)
+    elif art['kind'] == 'modelcheck-accepts-non-member-lazily':
+        run_shard(['lazy'], 'quick', 0, acc)
     else:
         t = spaces.from_jsonable(c['tree'])
         check_tree(t, acc, fixed_K())
